@@ -1,10 +1,10 @@
 (* C13/Props.v — the property theorems, nothing else.
    Model: C13/Model.v (src/shlex.py, src/callbacks.py Tokenizer/tokenize, utils.str.dqrepr, CPython unicode_escape),
-   C13/Utf8.v (strict UTF-8, Latin-1).  Proofs: Utf8.v, Lemmas.v, Roundtrip.v, Dqrepr.v, Brackets.v, Nested.v, Render.v, Lookup.v.
+   C13/Utf8.v (strict UTF-8, Latin-1).  Proofs: Utf8.v, Lemmas.v, Roundtrip.v, Dqrepr.v, Brackets.v, Nested.v, Render.v, Lookup.v, Repeat.v.
    [named] is the unicodedata name table behind \N{...}: any function. *)
 From Coq Require Import List NArith.
 Import ListNotations.
-Require Import Base.Wire Base.PyStr C13.Utf8 C13.Model C13.Lemmas C13.Roundtrip C13.Dqrepr C13.Brackets C13.Nested C13.Render C13.Lookup.
+Require Import Base.Wire Base.PyStr C13.Utf8 C13.Model C13.Lemmas C13.Roundtrip C13.Dqrepr C13.Brackets C13.Nested C13.Render C13.Lookup C13.Repeat.
 
 (* Tokenising any text (any code points, lone surrogates included) under any
    configuration yields a tree of string tokens or SyntaxError, never another failure. *)
@@ -153,3 +153,14 @@ Theorem C13_channel_without_nesting :
   tokenize_at named k l (join [SP] ws) = Ok (map Leaf ws).
 Proof. exact channel_without_nesting. Qed.
 Print Assumptions C13_channel_without_nesting.
+
+(* Tokenising is a function of (configuration, text) only, also as objects go: in any session of tokenize calls
+   interleaved with arbitrary in-place edits of the results handed out earlier (what Alias, Aka, Scheduler and
+   Conditional do when they substitute $1/$* into the tree), every call observes exactly tokenize_at of its own
+   configuration and text.  (session: every call allocates a fresh result object -- the shape pinned in t13 and
+   exercised by the call-twice oracle; Example cached_is_not_pure: a variant that hands a remembered object out
+   again does not satisfy this.) *)
+Theorem C13_session_pure :
+  forall named (h : list event) (st : objstore), session named st h = calls named h.
+Proof. exact session_pure. Qed.
+Print Assumptions C13_session_pure.
